@@ -53,6 +53,7 @@ type ledgerMsg struct {
 	Targets []string
 	SHA     string
 	Enq     string // acked | open | refused
+	CutOff  bool   // the upload never completed (fewer body bytes than announced)
 	mu      sync.Mutex
 	Events  []ledgerEv
 }
@@ -149,6 +150,33 @@ func c01Traffic(p *l3.Proc, r *vlib.Rand, led *c01Ledger, gen int, crash c01Cras
 					m.mu.Lock()
 					m.Enq = st
 					m.mu.Unlock()
+				case x < 34: // an upload that is cut off: fewer body bytes than announced
+					// (sender crash, proxy dropping the upstream connection). Nobody sent this
+					// message: whatever the server answers, nothing may be stored for it - and
+					// if it says 202 the stored payload would have to be the full body.
+					route := vlib.Pick(cr, []string{"/p1", "/p2", "/fan"})
+					body := c01Body(marker, cr)
+					for len(body) < 40 {
+						body = append(body, 'x')
+					}
+					targets := []string{"pull"}
+					if route == "/fan" {
+						targets = c01FanTargets
+					}
+					m := &ledgerMsg{Marker: marker, Route: route, Targets: targets, SHA: sha16(body), Enq: "open", CutOff: true}
+					led.mu.Lock()
+					led.msgs[marker] = m
+					led.mu.Unlock()
+					sendN := vlib.Pick(cr, []int{0, 1, len(body) / 2, len(body) - 1})
+					resp := p.IngressCutOff(route, body, sendN, map[string]string{"X-Verif-Marker": marker}, cr.Chance(0.7))
+					st := "refused"
+					if resp.Err == nil && resp.Status == 202 {
+						st = "acked"
+					}
+					m.mu.Lock()
+					m.Enq = st
+					m.mu.Unlock()
+					c01CutOffUploads.Add(1)
 				case x < 40: // fan-out
 					body := c01Body(marker, cr)
 					m := &ledgerMsg{Marker: marker, Route: "/fan", Targets: c01FanTargets, SHA: sha16(body), Enq: "open"}
@@ -327,7 +355,7 @@ func c01Traffic(p *l3.Proc, r *vlib.Rand, led *c01Ledger, gen int, crash c01Cras
 	wg.Wait()
 }
 
-var c01DupSettles, c01StaleBatches atomic.Int64
+var c01DupSettles, c01StaleBatches, c01CutOffUploads atomic.Int64
 
 // c01Audit compares the post-restart listing with the ledger.
 func c01Audit(c *vlib.Ctx, label string, crash c01Crash, led *c01Ledger, msgs []l3.Message) {
@@ -828,7 +856,7 @@ func c01Drain(c *vlib.Ctx, p *l3.Proc, label string, crash c01Crash, led *c01Led
 
 // C01: an acknowledged message is durable.
 func C01(c *vlib.Ctx) {
-	c.Rule("the real binary (verif hooks, WAL checkpoint every 40ms) runs on loopback with SQLite on disk; 4 concurrent clients send a seeded mix of ingress single/fan-out requests, publish batches of 1-20, dequeues and single/batch ack/nack/dead-letter calls, writing a ledger entry before each request and the status after the reply; the process is killed (SIGKILL from inside at a named point x hit index, or from outside at a seeded operation index), restarted on the same database (3 generations per database in a third of the trials) and audited through the Admin listing: acknowledged and not acked-away => exactly one row per target with the same payload sha256; acknowledged ack/dead-letter not undone; open request => zero or one row per target; nothing nobody sent; no duplicates; restart succeeds; then every deliverable message is offered again through the Pull API. distinct_nontrivial = distinct (crash point x hit class | external op-index decade) classes actually reached.")
+	c.Rule("the real binary (verif hooks, WAL checkpoint every 40ms) runs on loopback with SQLite on disk; 4 concurrent clients send a seeded mix of ingress single/fan-out requests, publish batches of 1-20, uploads cut off after 0 / 1 / half / all-but-one of the announced body bytes (half-closed or dropped), dequeues and single/batch ack/nack/dead-letter calls, writing a ledger entry before each request and the status after the reply; the process is killed (SIGKILL from inside at a named point x hit index, or from outside at a seeded operation index), restarted on the same database (3 generations per database in a third of the trials) and audited through the Admin listing: acknowledged and not acked-away => exactly one row per target with the same payload sha256; acknowledged ack/dead-letter not undone; open request => zero or one row per target; nothing nobody sent; no duplicates; restart succeeds; then every deliverable message is offered again through the Pull API. distinct_nontrivial = distinct (crash point x hit class | external op-index decade) classes actually reached.")
 	c.Assume("process death (SIGKILL), not power loss: the page cache survives; the ordering of fsync before the acknowledgement is checked separately by the strace trace specification in the thorough tier")
 	c.Assume("identity is by marker (ids are server-generated); batch atomicity under a crash is not demanded for an unacknowledged publish")
 	root := filepath.Join(vlib.VerifRoot(), ".run", fmt.Sprintf("c01.%d", os.Getpid()))
@@ -868,6 +896,7 @@ func C01(c *vlib.Ctx) {
 	c01DropOldest(c, root)
 	c.Set("duplicate_settle_races", c01DupSettles.Load())
 	c.Set("all_conflict_batches", c01StaleBatches.Load())
+	c.Set("cut_off_uploads", c01CutOffUploads.Load())
 	c01Strace(c, root)
 	if c.Counter("restart_audits") == 0 {
 		c.Inconclusive("C01: no restart audit completed")
